@@ -34,10 +34,25 @@ func (ri *ReverseIndex) Add(mapping *models.CGNATMapping) {
 	defer ri.mu.Unlock()
 
 	key := makeReverseKey(mapping.OutsideIP, mapping.PortBlockStart)
-	ri.byBlock[key] = mapping
 
 	var ipKey [4]byte
 	copy(ipKey[:], mapping.OutsideIP.To4())
+
+	// Re-adding a block that is already indexed (restore re-entered, activation
+	// after a degraded restore) replaces the entry; otherwise Remove would leave
+	// the older pointer behind in byIP and Lookup would keep answering for a
+	// released block.
+	if old, ok := ri.byBlock[key]; ok {
+		mappings := ri.byIP[ipKey]
+		for i, m := range mappings {
+			if m == old {
+				ri.byIP[ipKey] = append(mappings[:i], mappings[i+1:]...)
+				break
+			}
+		}
+	}
+
+	ri.byBlock[key] = mapping
 	ri.byIP[ipKey] = append(ri.byIP[ipKey], mapping)
 }
 
